@@ -235,6 +235,140 @@ def run_line_case(c):
     return None
 
 
+def run_helper_case(c):
+    """Run-time contracts (bounded) of the TRSO steps that only rearrange the query: line 2 (restriction to the ancestors of the
+    outcomes in every domain + marginal of the current distribution), line 3, line 4, the line-6 helper (use a source experiment
+    only when it meets the treatments and every selection node is separated from the outcomes) and all_transports_d_separated.
+    Reference side: networkx and the d-separation oracle on the canonical DAG; the input query must not be modified."""
+    dsl = concrete.y0mod("y0.dsl")
+    tr = concrete.y0mod("y0.algorithm.transport")
+    V = dsl.Variable
+    vs, d, u = c["nodes"], c["directed"], c["undirected"]
+    g = oracles.build(vs, d, u, random.Random(c["seed"]))
+    X, Y, S, Z = set(c["X"]), set(c["Y"]), c["transported"], set(c["Z"])
+    pop = dsl.Population("pi1")
+    gs = tr.create_transport_diagram(graph=g, nodes_to_transport=[V(v) for v in S])
+    tn = {v: "T_" + v for v in S}
+    d_s = list(d) + [(tn[v], v) for v in S]
+    vs_s = list(vs) + [tn[v] for v in S]
+    joint = dsl.PP[dsl.TARGET_DOMAIN](*[V(v) for v in sorted(vs)])
+
+    def query():
+        return tr.TRSOQuery(target_interventions={V(x) for x in X}, target_outcomes={V(y) for y in Y}, expression=joint,
+                            active_interventions=set(), domain=dsl.TARGET_DOMAIN, domains={pop},
+                            graphs={dsl.TARGET_DOMAIN: g, pop: gs}, surrogate_interventions={pop: {V(z) for z in Z}})
+
+    def snapshot(q):
+        return (set(q.target_interventions), set(q.target_outcomes), q.expression, set(q.active_interventions), q.domain,
+                {k: v.copy() for k, v in q.graphs.items()}, {k: set(v) for k, v in q.surrogate_interventions.items()})
+
+    def same(q, snap):
+        return snapshot(q)[:5] == snap[:5] and all(q.graphs[k] == snap[5][k] for k in snap[5]) and snapshot(q)[6] == snap[6]
+    dg = nx.DiGraph()
+    dg.add_nodes_from(vs_s)
+    dg.add_edges_from(d_s)
+    an = set(Y)
+    for y in Y:
+        an |= nx.ancestors(dg, y)
+    what = c["what"]
+    q0 = query()
+    snap = snapshot(q0)
+    try:
+        if what == "sep":
+            got = tr.all_transports_d_separated(gs, target_interventions={V(x) for x in X}, target_outcomes={V(y) for y in Y})
+            cut = [(a, b) for a, b in d_s if b not in X]
+            ucut = [(a, b) for a, b in u if a not in X and b not in X]
+            want = all(oracles.d_separated(vs_s, cut, ucut, tn[v], y, X) for v in S for y in Y)
+            if bool(got) != want:
+                return f"all_transports_d_separated = {got}; selection nodes {'are' if want else 'are not all'} separated from the outcomes given X in the graph without edges into X"
+            return None
+        if what == "line2":
+            nq = tr.trso_line2(q0, {V(v) for v in an if not v.startswith("T_")})
+            if not same(q0, snap):
+                return "trso_line2 modified its input query"
+            an_t = {v for v in an if not v.startswith("T_")}
+            if nq.target_interventions != {V(x) for x in X & an_t}:
+                return f"trso_line2: interventions {sorted(map(str, nq.target_interventions))}, expected X & An(Y) = {sorted(X & an_t)}"
+            if nq.graphs[dsl.TARGET_DOMAIN] != g.subgraph({V(v) for v in an_t}):
+                return "trso_line2: target graph is not G[An(Y)]"
+            if nq.graphs[pop] != gs.subgraph({V(v) for v in an}):
+                return "trso_line2: source diagram is not restricted to the ancestors of the outcomes in that diagram"
+            target = scm.SCM(vs, d, u, c["seed"])
+            for env in xo.envs(target.order):
+                try:
+                    gotv = evaluate(nq.expression, env, {"target": target})
+                except xo.Undefined:
+                    continue
+                wantv = target.prob({v: env[v] for v in an_t})
+                if gotv != wantv:
+                    return f"trso_line2: new distribution {nq.expression} evaluates to {gotv} at {env}; P(An(Y)) is {wantv}"
+            return None
+        if what == "line3":
+            add = {V(v) for v in c["extra"]}
+            nq = tr.trso_line3(q0, add)
+            if not same(q0, snap):
+                return "trso_line3 modified its input query"
+            if nq.target_interventions != {V(x) for x in X} | add or not same(nq, (snap[0] | add,) + snap[1:]):
+                return "trso_line3: the new query is not the old one with the additional interventions"
+            return None
+        if what == "line4":
+            ug = nx.Graph()
+            ug.add_nodes_from(v for v in vs if v not in X)
+            ug.add_edges_from((a, b) for a, b in u if a not in X and b not in X)
+            comps = [frozenset(V(v) for v in comp) for comp in nx.connected_components(ug)]
+            rv = tr.trso_line4(q0, comps)
+            if not same(q0, snap):
+                return "trso_line4 modified its input query"
+            if set(rv) != set(comps):
+                return "trso_line4: keys are not the given components"
+            for comp, nq in rv.items():
+                if nq.target_outcomes != set(comp) or nq.target_interventions != {V(v) for v in vs} - set(comp):
+                    return f"trso_line4: sub-query of {sorted(map(str, comp))} has outcomes {sorted(map(str, nq.target_outcomes))} and interventions {sorted(map(str, nq.target_interventions))}"
+                if nq.graphs[dsl.TARGET_DOMAIN] != g or nq.expression != joint:
+                    return "trso_line4 changed the graph or the distribution of a sub-query"
+            return None
+        if what == "line6":
+            nq = tr._line_6_helper(q0, pop, gs)
+            if not same(q0, snap):
+                return "_line_6_helper modified its input query"
+            zx = Z & X
+            cut = [(a, b) for a, b in d_s if b not in X]
+            ucut = [(a, b) for a, b in u if a not in X and b not in X]
+            usable = bool(zx) and all(oracles.d_separated(vs_s, cut, ucut, tn[v], y, X) for v in S for y in Y)
+            if (nq is not None) != usable:
+                return (f"_line_6_helper {'uses' if nq is not None else 'rejects'} the source experiment do({sorted(Z)}); Z & X = {sorted(zx)}, selection nodes "
+                        f"{'are' if usable or not zx else 'are not'} separated from the outcomes")
+            if nq is None:
+                return None
+            if nq.target_interventions != {V(x) for x in X - Z} or nq.active_interventions != {V(z) for z in zx} or nq.domain != pop:
+                return "_line_6_helper: wrong remaining treatments / active experiment / domain"
+            if nq.graphs[pop] != gs.remove_nodes_from({V(z) for z in zx}) or nq.graphs[dsl.TARGET_DOMAIN] != g:
+                return "_line_6_helper: the source diagram is not the selection diagram without the experiment variables used"
+            return None
+    except Exception as e:
+        return f"{what} raised {type(e).__name__}: {e}"
+    return None
+
+
+def gen_helper_cases(tier, rng):
+    graphs = []
+    for n in (2, 3):
+        graphs += list(oracles.all_admgs(n))
+    for _ in range(500 if tier == "quick" else 5000):
+        n = rng.choice([4, 4, 5])
+        vs, d, u = oracles.random_admg(rng, n, p_d=rng.choice([0.35, 0.55]), p_u=rng.choice([0.15, 0.3]))
+        graphs.append((vs, d, u[:4]))
+    for vs, d, u in graphs:
+        for what in ("sep", "line2", "line3", "line4", "line6"):
+            k = rng.randint(1, len(vs) - 1)
+            xs = rng.sample(vs, k)
+            rest = [v for v in vs if v not in xs]
+            ys = rng.sample(rest, rng.randint(1, min(2, len(rest))))
+            yield {"helper": True, "what": what, "nodes": vs, "directed": d, "undirected": u, "X": xs, "Y": ys,
+                   "transported": sorted(v for v in vs if rng.random() < 0.4), "Z": rng.sample(vs, rng.randint(1, min(2, len(vs)))),
+                   "extra": [v for v in vs if rng.random() < 0.4], "seed": rng.randrange(1 << 30)}
+
+
 def gen_line_cases(tier, rng):
     graphs = []
     for n in (2, 3):
@@ -261,6 +395,8 @@ def gen_line_cases(tier, rng):
 
 def _eval(c):
     try:
+        if c.get("helper"):
+            return c, run_helper_case(c), None
         if "line" in c:
             return c, run_line_case(c), None
         return c, run_case(c), None
@@ -287,6 +423,25 @@ def extra(rep, repo, registry, known_open):
                                      "edges (1,400 sampled; all 11,946 in the thorough tier) and of sampled 5-node ADMGs: new graph, interventions, caller state, and "
                                      "the returned distribution against Q[C'] = P(C'|do(V-C')) (resp. its marginal) on an exact SCM, every assignment",
                             "failures": len(lfails), "wall_s": round(time.time() - t0, 1)})
+    helper_cases = list(gen_helper_cases(rep.tier, random.Random(repr((rep.seed, "C05-helpers")))))
+    hfails = []
+    with mp.get_context("fork").Pool(16) as pool:
+        for c, why, err in pool.imap_unordered(_eval, helper_cases, chunksize=16):
+            if err:
+                errs.append(err)
+            elif why:
+                hfails.append((c, why))
+    rep.extra_parts.append({"name": "trso-query-rearranging-steps-runtime-contracts", "kind": "bounded", "decides": True, "evaluations": len(helper_cases),
+                            "scope": "trso_line2, trso_line3, trso_line4, _line_6_helper, all_transports_d_separated called directly on every ADMG on 2-3 nodes and "
+                                     "sampled 4-5 node ADMGs with a derived selection diagram (random transported nodes, one source domain): new query fields "
+                                     "against their definitions (networkx, d-separation oracle on the canonical DAG), caller state unchanged",
+                            "failures": len(hfails)})
+    if hfails:
+        c, why = min(hfails, key=lambda f: (len(f[0]["nodes"]), len(f[0]["directed"]) + len(f[0]["undirected"])))
+        fn = {"sep": "all_transports_d_separated", "line2": "trso_line2", "line3": "trso_line3", "line4": "trso_line4", "line6": "_line_6_helper"}[c["what"]]
+        oid = f"y0.algorithm.transport.{fn}/bounded.contract"
+        path = pipeline.write_replay("C05", f"bounded.{c['what']}", {"property": "C05", "obligation": oid, "case": c, "why": why})
+        rep.violations.append((oid, path, ""))
     if lfails:
         c, why = min(lfails, key=lambda f: (len(f[0]["nodes"]), len(f[0]["directed"]) + len(f[0]["undirected"])))
         oid = f"y0.algorithm.transport.trso_line{c['line']}/bounded.contract"
@@ -312,7 +467,8 @@ def extra(rep, repo, registry, known_open):
 
 
 def replay(payload, path):
-    why = run_line_case(payload["case"]) if "line" in payload["case"] else run_case(payload["case"])
+    cs = payload["case"]
+    why = run_helper_case(cs) if cs.get("helper") else (run_line_case(cs) if "line" in cs else run_case(cs))
     print(json.dumps({"case": payload["case"], "now": why}, indent=1))
     if why:
         print(f"VIOLATION property=C05 replay={path}")
